@@ -2768,28 +2768,41 @@ evdns_server_request_get_requesting_addr(struct evdns_server_request *req_, stru
 static void
 retransmit_all_tcp_requests_for(struct nameserver *server)
 {
-	int i = 0;
-	for (i = 0; i < server->base->n_req_heads; ++i) {
-		struct request *started_at = server->base->req_heads[i];
+	struct evdns_base *base = server->base;
+	struct request **reqs;
+	int i, n = 0, k;
+
+	/* request_finished() frees the request and changes the lists (it also
+	 * pumps the waiting queue), so collect the affected requests first. */
+	reqs = mm_calloc(base->global_requests_inflight + 1, sizeof(*reqs));
+	if (!reqs)
+		return;
+	for (i = 0; i < base->n_req_heads; ++i) {
+		struct request *started_at = base->req_heads[i];
 		struct request *req = started_at;
 		if (!req)
 			continue;
 
 		do {
-			if (req->ns == server && (req->handle->tcp_flags & DNS_QUERY_USEVC)) {
-				if (req->tx_count >= req->base->global_max_retransmits) {
-					log(EVDNS_LOG_DEBUG, "Giving up on request %p; tx_count==%d",
-						(void *)req, req->tx_count);
-					reply_schedule_callback(req, 0, DNS_ERR_TIMEOUT, NULL);
-					request_finished(req, &REQ_HEAD(req->base, req->trans_id), 1);
-				} else {
-					(void) evtimer_del(&req->timeout_event);
-					evdns_request_transmit(req);
-				}
-			}
+			if (req->ns == server && (req->handle->tcp_flags & DNS_QUERY_USEVC)
+			    && n < base->global_requests_inflight)
+				reqs[n++] = req;
 			req = req->next;
 		} while (req != started_at);
 	}
+	for (k = 0; k < n; ++k) {
+		struct request *req = reqs[k];
+		if (req->tx_count >= req->base->global_max_retransmits) {
+			log(EVDNS_LOG_DEBUG, "Giving up on request %p; tx_count==%d",
+				(void *)req, req->tx_count);
+			reply_schedule_callback(req, 0, DNS_ERR_TIMEOUT, NULL);
+			request_finished(req, &REQ_HEAD(req->base, req->trans_id), 1);
+		} else {
+			(void) evtimer_del(&req->timeout_event);
+			evdns_request_transmit(req);
+		}
+	}
+	mm_free(reqs);
 }
 
 /* this is a libevent callback function which is called when a request */
